@@ -28,8 +28,11 @@ def handle (inp out : List String) : String :=
       | _ => ["fail"]
     let prop := if out.take 1 == ["fail"] && out ≠ ["fail", "1", "1", "0"] then some "invalid-arguments-must-give-nonzero-exit-and-message-without-panic" else none
     verdict m (if out.take 1 == ["fail"] then ["fail"] else out) prop
-  | ["girth", _, _, _] => verdict ["Code", "girth", "=", "6"] out none
-  | "same" :: _ => verdict ["equal"] out none
+  | ["girth", _, _, _] =>
+    verdict ["Code", "girth", "=", "6"] out (if out ≠ ["Code", "girth", "=", "6"] then some "documented-girth-6-not-printed" else none)
+  | "same" :: what =>
+    -- the harness compared the tool's output with what the library computes for the same arguments
+    verdict ["equal"] out (if out ≠ ["equal"] then some s!"command-line-output-differs-from-the-library ({" ".intercalate what})" else none)
   | ["invalid", _] =>
     verdict ["1", "1", "0"] out (if out ≠ ["1", "1", "0"] then some "invalid-input-must-give-nonzero-exit-and-message-without-panic" else none)
   | ["encode", r, c, pat, input] =>
@@ -39,7 +42,7 @@ def handle (inp out : List String) : String :=
         | .ok e => (match encodeStream e (h.ncols - h.nrows) pattern input with
                     | some o => [showNatList o] | none => ["fail"])
         | _ => ["fail"]
-      verdict m out none
+      verdict m out (if m ≠ out then some "encode-output-is-not-the-punctured-codeword-per-complete-word (Cli.encodeStream)" else none)
     | _, _, _ => "BADLINE c20 encode"
   | ["ber", minC, maxC, stepC, _k] =>
     match minC.toInt?, maxC.toInt?, stepC.toInt? with
